@@ -9,8 +9,9 @@ import XmppModel.Generated.C04
 
 The negotiation machine of C01 with faults: the `k`-th I/O operation fails for any set of
 `k` (`O.fault`), the peer's input may end anywhere (`script`), any callback may fail
-(`O.list`, `O.parseErr`, `O.neg`), the context may be cancelled at any point of the trace
-(`O.cancel`).  Theorems hold for every such pattern.
+(`O.list`, `O.parseErr`, `O.neg`), the context may be done at any point of the trace (`O.cancel`:
+`ctx.Done()` fires — by a cancel function, an expiring deadline or timeout, or a cancelled parent;
+the model does not distinguish the kinds, `C04_gen_watcher` is why the code does not either).  Theorems hold for every such pattern.
 -/
 namespace XmppModel.Props.C04
 open XmppModel XmppModel.Negotiate
@@ -129,6 +130,14 @@ session.go (read from its AST), taken together, move the read **and** the write 
 hypotheses `O.dlRd = true`, `O.dlWr = true` of `C04_cancel_progress` -/
 theorem C04_gen_deadline : ∃ l, Generated.C04.deadlineSetters = some l ∧ dlOfSetters l = (true, true) :=
   ⟨_, rfl, by decide⟩
+
+/-- tie to the source: `negotiateSession` starts the context watcher unconditionally for every
+`net.Conn` (the `defer setDeadline(ctx, conn)()` stands directly in the `rw.(net.Conn)` branch) and
+never consults `ctx.Deadline()` — whatever kind of context it is given (cancel function, deadline,
+timeout, child of a cancelled parent), "the context is done" reaches the connection through the
+watcher; copying the context's deadline to the connection instead would lose an explicit
+cancellation that comes before that deadline -/
+theorem C04_gen_watcher : Generated.C04.watcherStart = some (true, false) := by decide
 
 /-- **cancellation ends a blocked read and a blocked write alike**: if the context watcher
 moves both deadlines, a call that is blocked — in a read because the peer is silent
